@@ -227,6 +227,11 @@ func NewWorld(t *rapid.T, b Bounds) *World {
 	nbase := rapid.IntRange(1, 2).Draw(t, "nbase")
 	for i := 0; i < nbase; i++ {
 		fb := gen.FrameBounds{MaxCols: b.MaxCols, MaxRows: b.MaxRows, WithID: true, NoCR: false}
+		if i == 0 && gen.Rare(t, "bigbase", 40) {
+			// sizes beyond the small-frame regimes (insertion sort <= 12 rows,
+			// ninther pivot > 40, several hash-table growth steps)
+			fb.MinRows, fb.MaxRows = 41, 3*b.MaxRows+60
+		}
 		fb.SmallDomain = rapid.IntRange(0, 5).Draw(t, "smalldomain") != 0
 		fs := gen.DrawFrame(t, fb)
 		w.Specs = append(w.Specs, fs)
